@@ -28,8 +28,10 @@ ASSUMPTIONS = ["cyclic input-source wiring makes the Python recurse until Recurs
 TRUSTED_EXTRA = ["harness/gen_scaling.py (graph generator and exact-rational oracle)"]
 
 
-def close(got, exact):
-    return abs(Fraction(float(got)) - exact) <= Fraction(1, 10 ** 12) * max(1, abs(exact))
+def close(got, exact, magnitude=0):
+    """binary64 agreement with the exact value, relative to the largest intermediate magnitude of the evaluation (cancellation
+    between huge intermediates legitimately loses the small result)"""
+    return abs(Fraction(float(got)) - exact) <= Fraction(1, 10 ** 12) * max(1, abs(exact), magnitude)
 
 
 def run(ctx):
@@ -83,8 +85,10 @@ def run(ctx):
             ty = rnd.choice(list(gs.NUMERIC))
             vals, packed = gs.raw_values(rnd, ty, n)
             cut = rnd.randint(0, n)
+            # (group and channel names with quotes / slashes / nothing: the group's and the file's properties are found through paths)
+            gname, cname = rnd.choice(["g", "g", "it's", "Bob's rig", "a/b", "", "'"]), rnd.choice(["c", "c", "c'", "'", "x/y"])
             segs = gs.one_channel_file(ty, [packed[:cut], packed[cut:]] if rnd.random() < 0.5 else [packed], cp, gp, rp, big=rnd.random() < 0.3,
-                                         order=rnd.choice(["rgc", "rgc", "cgr", "late"]))
+                                         order=rnd.choice(["rgc", "rgc", "cgr", "late"]), names=(gname, cname))
         e = model.ask(gen_files.to_line(segs))
         if not e.get("ok") or not e.get("wf"):
             disagreements.append(dict(what="generated scaling file is not well-formed: %s" % str(e)[:100]))
@@ -94,7 +98,7 @@ def run(ctx):
         try:
             fe = nptdms.TdmsFile.read(io.BytesIO(data))
             fl = nptdms.TdmsFile.open(io.BytesIO(data))
-            che, chl = fe["g"]["c"], fl["g"]["c"]
+            che, chl = (fe["g"]["c"], fl["g"]["c"]) if daq else (fe[gname][cname], fl[gname][cname])
             raw_before = None if daq else che.raw_data.tobytes()
             got = che[:]
             got_lazy = chl[:]
@@ -109,12 +113,14 @@ def run(ctx):
             w = 8 * int(gs.NUMERIC[ty][1][1])
             int_range = (0, 2 ** w - 1) if gs.NUMERIC[ty][1][0] == "u" else (-2 ** (w - 1), 2 ** (w - 1) - 1)
         try:
+            mags = [0] * n
             if effective is None:
                 exp = [Fraction(v) for v in vals]
-            elif daq:
-                exp = [gs.eval_graph(effective, None, [scal[j][r] for j in range(k)], int_range) for r in range(n)]
             else:
-                exp = [gs.eval_graph(effective, v, None, int_range) for v in vals]
+                exp = []
+                for r in range(n):
+                    exp.append(gs.eval_graph(effective, None, [scal[j][r] for j in range(k)], int_range) if daq else gs.eval_graph(effective, vals[r], None, int_range))
+                    mags[r] = gs.LAST_MAGNITUDE
         except gs.Wraps:
             stats["integer_wraps_skipped"] = stats.get("integer_wraps_skipped", 0) + 1
             continue
@@ -125,7 +131,7 @@ def run(ctx):
             stats["values"] += 1
             if Fraction(float(got[r])) == exp[r]:
                 stats["exact"] += 1
-            if not close(got[r], exp[r]):
+            if not close(got[r], exp[r], mags[r]):
                 violations.append(Violation("scaled value %r differs from the dataflow evaluation %s of the NI_Scale graph (%s)" % (float(got[r]), float(exp[r]), scenario),
                                             dict(info, index=r, graph=str(effective)[:400])))
                 break
@@ -178,7 +184,7 @@ def run(ctx):
                     disagreements.append(dict(what="model value error %s" % mv, **info))
                     break
                 a, b = mv.split("/")
-                if not close(got[r], Fraction(int(a), int(b))):
+                if not close(got[r], Fraction(int(a), int(b)), mags[r]):
                     disagreements.append(dict(what="value %d: model %s real %r (%s)" % (r, mv, float(got[r]), scenario), **info))
                     break
         if effective is not None and len(effective) > 1:
